@@ -444,11 +444,14 @@ impl<'r, D: Doc> Node<'r, D> {
   #[cfg(not(target_arch = "wasm32"))]
   pub fn next_all(&self) -> impl Iterator<Item = Node<'r, D>> + '_ {
     // if root is none, use self as fallback to return a type-stable Iterator
-    let node = self.parent().unwrap_or_else(|| self.clone());
+    let parent = self.parent();
+    // the root node has no siblings
+    let has_parent = parent.is_some();
+    let node = parent.unwrap_or_else(|| self.clone());
     let mut cursor = node.inner.walk();
     cursor.goto_first_child_for_byte(self.inner.start_byte());
     std::iter::from_fn(move || {
-      if cursor.goto_next_sibling() {
+      if has_parent && cursor.goto_next_sibling() {
         Some(self.root.adopt(cursor.node()))
       } else {
         None
@@ -480,11 +483,14 @@ impl<'r, D: Doc> Node<'r, D> {
   #[cfg(not(target_arch = "wasm32"))]
   pub fn prev_all(&self) -> impl Iterator<Item = Node<'r, D>> + '_ {
     // if root is none, use self as fallback to return a type-stable Iterator
-    let node = self.parent().unwrap_or_else(|| self.clone());
+    let parent = self.parent();
+    // the root node has no siblings
+    let has_parent = parent.is_some();
+    let node = parent.unwrap_or_else(|| self.clone());
     let mut cursor = node.inner.walk();
     cursor.goto_first_child_for_byte(self.inner.start_byte());
     std::iter::from_fn(move || {
-      if cursor.goto_previous_sibling() {
+      if has_parent && cursor.goto_previous_sibling() {
         Some(self.root.adopt(cursor.node()))
       } else {
         None
